@@ -592,6 +592,13 @@ def decide(pid, tier, seed, t0):
         states += r.get("tlc_states", 0)
         timeouts += r.get("timeouts", [])
         samples += r.get("samples", [])
+    drift = {}
+    for n, r in results.items():
+        for v in r.get("violations", []):
+            if v["pred"][:2] in ("D_", "X_"):
+                drift[v["pred"]] = drift.get(v["pred"], 0) + 1
+    for k, c in sorted(drift.items()):
+        log("DRIFT (Level-I conformance, not a property violation): %s at %d event(s)" % (k, c))
     unknown, knownhits = [], {}
     for v in viols:
         f = classify(v, known)
@@ -614,12 +621,12 @@ def decide(pid, tier, seed, t0):
         path = write_replay(pid, v)
         print("VIOLATION property=%s replay=%s predicate=%s op=%s run=%d step=%d" % (pid, path, v["pred"], v["op"], v["run"], v["i"]))
     models = [r["model"] for r in results.values() if r.get("model")]
-    write_evidence(pid, tier, seed, t0, method, counts, events, runs, states, samples, len(unknown), results, models, len(knownhits))
+    write_evidence(pid, tier, seed, t0, method, counts, events, runs, states, samples, len(unknown), results, models, len(knownhits), drift)
     sys.stdout.flush()
     return 1 if unknown else 0
 
 
-def write_evidence(pid, tier, seed, t0, method, counts, events, runs, states, samples, nviol, results, models=(), nknown=0):
+def write_evidence(pid, tier, seed, t0, method, counts, events, runs, states, samples, nviol, results, models=(), nknown=0, drift=None):
     os.makedirs(os.path.join(VERIF, "evidence"), exist_ok=True)
     nontrivial = sum(counts.values())
     mstates = sum(m.get("distinct_states", 0) for m in models)
@@ -632,6 +639,7 @@ def write_evidence(pid, tier, seed, t0, method, counts, events, runs, states, sa
             "states_note": "states = distinct states of the TLC model-checking runs listed in model_runs plus one TLC state per "
                            "validated trace event; transitions = states generated by those runs plus validated events",
             "known_findings_hit": nknown,
+            "level_I_drift": drift or {},
             "binding_selftest": [x for r in results.values() for x in r.get("selftest", [])],
             "spec_mutants": [x for r in results.values() for x in r.get("specmutants", [])],
             "traces_validated_against_impl": runs,
